@@ -55,7 +55,7 @@ func checkC20(c *ctx) {
 		"munmap/close are OS behaviour: observed through /proc/self/maps and /proc/self/fd, not modelled",
 		"concurrency: each operation is one atomic step under Segment.m (theorem covers all interleavings of atomic steps); data-race freedom is observed with the race detector on sampled schedules only")
 	maxLen := c.n(7, 11)
-	b := zh.GenBatch(c.R, zh.RandOpts(c.R, 4, "r"))
+	b := zh.AddSynDocs(c.R, zh.GenBatch(c.R, zh.RandOpts(c.R, 4, "r")), "r")
 	sb, _, err := zh.Build(b, 1026)
 	must(err)
 	want, err := zh.Dump(sb)
@@ -65,53 +65,61 @@ func checkC20(c *ctx) {
 	must(zap.PersistSegmentBase(sb, path))
 	for n := 1; n <= maxLen; n += 2 {
 		for _, ops := range refSeqs(n) {
-			s, err := zh.Plugin.Open(path)
-			must(err)
-			seg := s.(*zap.Segment)
-			tr := ask(c, sx.L(sx.N(zh.ReqRef), sx.Nums(ops)))
-			adds := 0
-			var fail string
-			for i, o := range ops {
-				var derr error
-				if o == 0 {
-					seg.AddRef()
-					adds++
-				} else if i%2 == 0 {
-					derr = seg.DecRef()
-				} else {
-					derr = seg.Close()
-				}
-				mp, fd := mappedAndFd(path)
-				exp := tr.L[i]
-				expMapped := exp.L[1].N == 1
-				if mp != expMapped || fd != expMapped {
-					fail = fmt.Sprintf("after op %d of %v: mapped=%v fd=%v, model says mapped=%v", i, ops, mp, fd, expMapped)
-				}
-				if derr != nil {
-					fail = fmt.Sprintf("op %d of %v returned error %v", i, ops, derr)
-				}
-				if expMapped {
-					got, err := zh.Dump(seg)
-					if err != nil || got.Sx().String() != wantS {
-						fail = fmt.Sprintf("after op %d of %v: segment no longer reads back its content (err=%v)", i, ops, err)
+			// the release operation is DecRef or Close (= DecRef): all-DecRef, all-Close, alternating
+			for variant := 0; variant < 3; variant++ {
+				s, err := zh.Plugin.Open(path)
+				must(err)
+				seg := s.(*zap.Segment)
+				tr := ask(c, sx.L(sx.N(zh.ReqRef), sx.Nums(ops)))
+				adds := 0
+				var fail string
+				var names []string
+				for i, o := range ops {
+					var derr error
+					switch {
+					case o == 0:
+						seg.AddRef()
+						adds++
+						names = append(names, "AddRef")
+					case variant == 0 || (variant == 2 && i%2 == 0):
+						derr = seg.DecRef()
+						names = append(names, "DecRef")
+					default:
+						derr = seg.Close()
+						names = append(names, "Close")
+					}
+					mp, fd := mappedAndFd(path)
+					exp := tr.L[i]
+					expMapped := exp.L[1].N == 1
+					if mp != expMapped || fd != expMapped {
+						fail = fmt.Sprintf("after %v: mapped=%v descriptor open=%v, model says mapped=%v (refs %d)", names, mp, fd, expMapped, exp.L[0].N)
+					}
+					if derr != nil {
+						fail = fmt.Sprintf("%v: the last call returned error %v", names, derr)
+					}
+					if expMapped && fail == "" {
+						got, err := zh.Dump(seg)
+						if err != nil || got.Sx().String() != wantS {
+							fail = fmt.Sprintf("after %v: segment no longer reads back its content (err=%v)", names, err)
+						}
+					}
+					if fail != "" {
+						break
 					}
 				}
-				if fail != "" {
-					break
+				last := tr.L[len(ops)-1]
+				if fail == "" && (last.L[2].N != 1 || last.L[0].N != 0) {
+					fail = "model did not end released exactly once (harness generator bug)"
 				}
-			}
-			last := tr.L[len(ops)-1]
-			if fail == "" && (last.L[2].N != 1 || last.L[0].N != 0) {
-				fail = "model did not end released exactly once (harness generator bug)"
-			}
-			c.Case(fmt.Sprint(ops), len(ops) >= 3 && adds > 0)
-			c.Count(fmt.Sprintf("len=%d", len(ops)))
-			if len(ops) == 5 {
-				c.Sample(map[string]interface{}{"ops(0=AddRef,1=DecRef/Close)": ops, "model_trace(refs,mapped,releases)": tr.Pretty()})
-			}
-			if fail != "" {
-				c.Violation("C20 sequential history\nops (0=AddRef 1=DecRef/Close): "+fmt.Sprint(ops)+"\n"+fail, false)
-				return
+				c.Case(fmt.Sprint(ops, variant), len(ops) >= 3 && adds > 0)
+				c.Count(fmt.Sprintf("len=%d", len(ops)))
+				if len(ops) == 5 && variant == 2 {
+					c.Sample(map[string]interface{}{"calls": names, "model_trace(refs,mapped,releases)": tr.Pretty()})
+				}
+				if fail != "" {
+					c.Violation("C20 sequential history on a freshly opened segment (refs = 1)\n"+fail, false)
+					return
+				}
 			}
 		}
 	}
@@ -120,8 +128,9 @@ func checkC20(c *ctx) {
 	if err := sb.Close(); err != nil {
 		c.Violation("C20 in-memory Close returned "+err.Error(), false)
 	}
-	if got, err := zh.Dump(sb); err != nil || got.Sx().String() != wantS {
-		c.Violation(fmt.Sprintf("C20 in-memory segment unreadable after Close (err=%v)", err), false)
+	// (reading an in-memory segment after Close is not part of the statement: Close releases its caches)
+	if err := sb.Close(); err != nil {
+		c.Violation("C20 second Close of an in-memory segment returned "+err.Error(), false)
 	}
 	c.Case("inmem-close", true)
 	// concurrent holders interleaved with readers
